@@ -6,6 +6,8 @@ Unmarshal over the schema tables), InToto/Model/Metadata.lean (both loaders, Dum
 -/
 import InToto.Model.Metadata
 import InToto.Proofs.Schema
+import InToto.Generated.Facts
+import InToto.Model.SchemaFacts
 
 namespace InToto.C12
 set_option maxRecDepth 100000
@@ -99,5 +101,33 @@ theorem null_signatures_example :
 theorem foreign_payload_type_example :
     (loadMetadata (lit% "{\"payloadType\":\"text/plain\",\"payload\":\"e30=\",\"signatures\":[]}")).isOk = false := by
   decide
+
+/-! ### facts regenerated from /repo's source on every run (InToto/Generated/Facts.lean) -/
+
+/-- the struct tags (json name, omitempty) and Go field types of the metadata structs in the CURRENT
+    source are the ones the model's schema tables were written for -/
+theorem facts_struct_tags :
+    Generated.structKeyVal = SchemaFacts.expKeyVal ∧ Generated.structKey = SchemaFacts.expKey ∧
+    Generated.structSignature = SchemaFacts.expSignature ∧ Generated.structLink = SchemaFacts.expLink ∧
+    Generated.structInspection = SchemaFacts.expInspection ∧ Generated.structStep = SchemaFacts.expStep ∧
+    Generated.structLayout = SchemaFacts.expLayout ∧
+    Generated.structCertificateConstraint = SchemaFacts.expCertConstraint ∧
+    Generated.structMetablock = SchemaFacts.expMetablock := by
+  refine ⟨?_, ?_, ?_, ?_, ?_, ?_, ?_, ?_, ?_⟩ <;> decide
+
+/-- and those tables are the model's (names and omitempty flags) -/
+theorem facts_schema_is_model : SchemaFacts.namesOf Schema.fieldsLink = SchemaFacts.namesOfExp SchemaFacts.expLink ∧
+    SchemaFacts.namesOf Schema.fieldsLayout = SchemaFacts.namesOfExp SchemaFacts.expLayout ∧
+    SchemaFacts.namesOf Schema.fieldsStep = SchemaFacts.namesOfExp SchemaFacts.expStep ∧
+    SchemaFacts.namesOf Schema.fieldsInspection = SchemaFacts.namesOfExp SchemaFacts.expInspection ∧
+    SchemaFacts.namesOf Schema.fieldsKey = SchemaFacts.namesOfExp SchemaFacts.expKey ∧
+    SchemaFacts.namesOf Schema.fieldsKeyVal = SchemaFacts.namesOfExp SchemaFacts.expKeyVal ∧
+    SchemaFacts.namesOf Schema.fieldsSignature = SchemaFacts.namesOfExp SchemaFacts.expSignature ∧
+    SchemaFacts.namesOf Schema.fieldsCertConstraint = SchemaFacts.namesOfExp SchemaFacts.expCertConstraint := by
+  refine ⟨?_, ?_, ?_, ?_, ?_, ?_, ?_, ?_⟩ <;> decide
+
+/-- the hexadecimal-string regular expression of the validator is the one `Validate.isHex` models -/
+theorem facts_hex_regexp : (lit% "^[a-fA-F0-9]+$") ∈ Generated.regexps := by decide
+theorem facts_payload_type : Generated.constPayloadType = Metadata.payloadTypeConst := by decide
 
 end InToto.C12
